@@ -429,8 +429,24 @@ class Orchestrator:  # thailint: ignore[srp]
             return self.lint_files(file_paths)
 
         violations = self._execute_parallel_linting(file_paths, effective_workers)
+        self._collect_cross_file_evidence(file_paths)
         violations.extend(self._finalize_rules())
         return violations
+
+    def _collect_cross_file_evidence(self, file_paths: list[Path]) -> None:
+        """Run the cross-file rules (those overriding finalize) in this process.
+
+        Worker processes hold their own rule instances, so the evidence gathered by
+        check() there never reaches the finalize() call of this process.
+        """
+        self._ensure_rules_discovered()
+        rules = [r for r in self.registry.list_all() if type(r).finalize is not BaseLintRule.finalize]
+        for file_path in file_paths:
+            if _is_hardcoded_excluded(file_path) or self.ignore_parser.is_ignored(file_path):
+                continue
+            metadata = {**self.config, "_project_root": self.project_root}
+            context = FileLintContext(file_path, detect_language(file_path), metadata=metadata)
+            self._execute_rules(rules, context)  # per-file results already came from the workers
 
     def _execute_parallel_linting(
         self, file_paths: list[Path], max_workers: int
